@@ -637,6 +637,46 @@ def run_reparse(run: Run, tname, n):
             got = {G.key_of(x): c for x, c in p[2].atoms.items()}
             if got.get((6, 0, 0)) != big:
                 run.violation("the %s %d is read as %r" % (where, big, got.get((6, 0, 0))), inp, kind="wrong-composition")
+    # (c) integer counts far beyond the range of a float (309..420 digits): `number :: [1-9][0-9]*` has no upper
+    # bound, so the string is legal and denotes exactly the integers written (judged with Python integers)
+    zs = {sym: ref[sym]["z"] for sym in ("H", "O", "C", "Fe")}
+    kH, kO, kC, kFe = ((zs[s_], 0, 0) for s_ in ("H", "O", "C", "Fe"))
+    huge = [int("1" + "0" * 320), int("9" * 309), 10 ** 400 + 7, 2 ** 1024, 2 ** 1024 - 1, 10 ** 308, 10 ** 309]
+    huge += [int(str(rng.randint(1, 9)) + "".join(str(rng.randint(0, 9)) for _ in range(rng.randint(308, 420))))
+             for _ in range(4)]
+    for big in huge:
+        small = rng.randint(2, 9)
+        forms = (("H%dO" % big, "element count", {kH: big, kO: 1}),
+                 ("%dH2O" % big, "leading group count", {kH: 2 * big, kO: big}),
+                 ("Fe(CH2)%d" % big, "group count", {kFe: 1, kC: big, kH: 2 * big}),
+                 ("Fe%d(C%dH2)%d" % (small, big, small), "element count inside a counted group",
+                  {kFe: small, kC: big * small, kH: 2 * small}),
+                 ("H%d + H2O" % big, "element count of a repeated atom", {kH: big + 2, kO: 1}))
+        for text, where, want in forms:
+            inp = dict(table=tname, string=text[:24] + "...(%d characters)" % len(text), stream="huge-integer",
+                       count_digits=len(str(big)), count_head=str(big)[:12], count_tail=str(big)[-12:])
+            run.count(key=(tname, "huge", text), nontrivial=True, tag="%s:huge-integer" % tname)
+            p = G.py_parse(text, tbl)
+            if p[0] != "OK":
+                run.violation("a string of the documented grammar with a %d-digit integer %s is rejected (%s)"
+                              % (len(str(big)), where, str(p[1])[:120]), inp, kind="grammar-string-rejected")
+                continue
+            try:
+                got = {G.key_of(x): c for x, c in p[2].atoms.items()}
+                charge = p[2].charge
+            except Exception as e:  # noqa
+                run.violation("the atoms / charge of a parsed string with a %d-digit integer %s cannot be read (%s: %s)"
+                              % (len(str(big)), where, type(e).__name__, str(e)[:80]), inp, kind="wrong-composition")
+                continue
+            if got != want:
+                bad = sorted(k for k in set(got) | set(want) if got.get(k) != want.get(k))
+                run.violation("the %d-digit %s is not read exactly: the counts of %s differ from the integers written "
+                              "(parsed: %s)" % (len(str(big)), where, bad,
+                                                [type(got.get(k)).__name__ + " " + repr(got.get(k))[:24] for k in bad]),
+                              inp, kind="wrong-composition")
+            elif charge != 0:
+                run.violation("net charge of a neutral formula with a %d-digit %s is %r" % (len(str(big)), where, charge),
+                              inp, kind="wrong-composition")
 
 
 def run_strict_blank(run: Run, tname, n):
@@ -958,9 +998,10 @@ def replay(data) -> int:
         if (s, tname) in seen:
             continue
         seen.add((s, tname))
-        if tname not in ("public", "private") or inp.get("stream") == "named":
+        if tname not in ("public", "private") or inp.get("stream") in ("named", "huge-integer"):
             # a table built by the stream itself (subclass instance, isotopes added after the first parse) or
-            # a keyword route of formula(): the record is the replay
+            # a keyword route of formula(), or a string too long to be recorded in full (count_digits / count_head /
+            # count_tail describe its integer): the record is the replay
             print("string %r table=%s stream=%s: %s" % (s, tname, inp.get("stream"), v.get("what", v)))
             print("  input:", inp)
             continue
